@@ -202,11 +202,24 @@ def run(ctx, tier):
 
     # ---------------------------------------------------------------- divisor
     n_store = 0
+    # the types that hold a resolution: the spaces themselves, or a small value type of the crate that a space keeps in a field
+    # (`resolution: MotionResolution { fraction }`): its own methods are then the only writers of the number
+    def _res_fields(a):
+        vs = ctx.core.adts.get(a, {}).get('variants') or [{}]
+        return [f['name'] for f in vs[0].get('fields', []) if f['ty'] == 'f64' and ('fraction' in f['name'] or 'resolution' in f['name'])]
+    holders = {}
+    n_via = {}
     for adt in space_adts(ctx):
-        fields = ctx.core.adts[adt]['variants'][0]['fields']
-        res = [f['name'] for f in fields if f['ty'] == 'f64' and ('fraction' in f['name'] or 'resolution' in f['name'])]
-        if not res:
+        if _res_fields(adt):
+            holders[adt] = _res_fields(adt)
+            n_via[adt] = 1
             continue
+        for f in ctx.core.adts[adt]['variants'][0]['fields']:
+            h = f['ty'].split('<', 1)[0]
+            if h in ctx.core.adts and h != adt and _res_fields(h):
+                holders[h] = _res_fields(h)
+                n_via[h] = n_via.get(h, 0) + 1
+    for adt, res in holders.items():
         for b in ctx.lib_bodies():
             if b.j.get('impl_adt') != adt or b.kind != 'AssocFn':
                 continue
@@ -228,8 +241,28 @@ def run(ctx, tier):
                         for k, f in enumerate(st['rv']['fields']):
                             if fnames[k] in res:
                                 vals.append((fnames[k], fn.op_terms(f, (bi, si))))
+                    # a value chosen by a `match` / `if` expression: judge each arm where it is computed
+                    if len(vals) == 1 and st['rv']['k'] == 'use' and len(vals[0][1]) > 1:
+                        defs = fn.split_defs(st['rv']['op'], (bi, si))
+                        if len(defs) > 1:
+                            n_store += n_via[adt]
+                            fname = vals[0][0]
+                            for (db, di, vt) in defs:
+                                if vt and all(n[0] == 'field' and n[2] == fname and all(q[0] == 'param' for q in n[1]) for n in strip_clone(vt)):
+                                    r_div.inst('%s: %s keeps its value' % (b.path, fname), ok=True, nontrivial=False)
+                                    continue
+                                ok, why = _positive(fn, db, vt)
+                                r_div.inst('%s: value chosen for %s at %s is positive (%s)' % (b.path, fname, b.loc(db, di), fmt_terms(vt)[:30]),
+                                           ok=ok, site=b.loc(db, di))
+                                if not ok:
+                                    r_div.violations.append(Violation(
+                                        'C06', 'C06.divisor', b.path, fname,
+                                        '%s can be set to a non-positive value (%s): the motion check divides by it and its step count becomes unbounded'
+                                        % (fname, why), loc=b.loc(db, di), ordinal=ordn))
+                                    ordn += 1
+                            continue
                     for (fname, vt) in vals:
-                        n_store += 1
+                        n_store += n_via[adt]
                         # copying the same field of another instance (Clone) preserves positivity inductively
                         if vt and all(n[0] == 'field' and n[2] == fname and all(q[0] == 'param' for q in n[1]) for n in strip_clone(vt)):
                             r_div.inst('%s: %s is copied from another instance' % (b.path, fname), ok=True, nontrivial=False)
